@@ -19,7 +19,7 @@ from ..core import outcome
 
 RULE = ("one case = (program of table operations = TLC state of MC_C19, table type) replayed on a real bnpdataclass; non-trivial = the "
         "program combines two of {selection, concatenation, sort, replace, add-field} before its last step; distinct by (program, type)")
-ALL_OPS = ["index", "concat", "replace", "addfield", "sort", "rows", "dict", "pandas", "iter", "len", "construct"]
+ALL_OPS = ["index", "concat", "replace", "addfield", "addexisting", "sort", "rows", "dict", "pandas", "iter", "len", "construct"]
 _TYPES = {}
 
 
@@ -58,6 +58,13 @@ def _types():
         label: str
         call: Mid
 
+    @bnpdataclass
+    class Siblings:         # two nested-table columns of the same type (equal sub-field names, different contents)
+        pos: int
+        label: str
+        first: Inner
+        second: Inner
+
     # per type: class, sort column, replaced column, source rows (3), fresh value maker for the replaced column
     _TYPES.update({
         "Interval": (dt.Interval, "start", "stop", [("chr1", 2, 10), ("chr22", 3, 1007), ("c3", 1, 200)], lambda k, j: 1000 * k + j),
@@ -69,6 +76,7 @@ def _types():
         "ChromosomeSize": (dt.ChromosomeSize, "size", "name", [("chr1", 20), ("chr22", 30), ("c3", 10)], lambda k, j: "f%d_%d" % (k, j)),
         "LocationEntry": (dt.LocationEntry, "position", "chromosome", [("chr1", 2), ("chr22", 3), ("c3", 1)], lambda k, j: "f%d_%d" % (k, j)),
         "Nested": (Nested, "pos", "label", [(2, "l1", ((1, "a"), 5)), (3, "label2", ((2, "bb"), 6)), (1, "", ((3, "c"), 7))], lambda k, j: "f%d_%d" % (k, j)),
+        "Siblings": (Siblings, "pos", "label", [(2, "l1", (1, "a"), (10, "x")), (3, "label2", (2, "bb"), (20, "yy")), (1, "", (3, "c"), (30, ""))], lambda k, j: "f%d_%d" % (k, j)),
         "Mixed": (Mixed, "key", "seq", [(2, "ACGT", True, 1.5, 5, [1, 2], "hello", "id1"), (3, "GG", False, -2.0, 0, [], "x", "identifier2"),
                                          (1, "T", True, 0.25, 77, [9], "", "i3")], lambda k, j: "ACGT"[(k + j) % 4] * (1 + j % 3)),
     })
@@ -160,7 +168,7 @@ def check_vector(v):
     tnames = sorted(types)
     chosen = tnames if v.get("_all") else [tnames[h % len(tnames)], tnames[(h + 3) % len(tnames)], "Mixed"]
     bad, n, nt = [], 0, []
-    structural = sum(1 for p in prog[1:] if p["op"] in ("index", "concat", "sort", "replace", "addfield"))
+    structural = sum(1 for p in prog[1:] if p["op"] in ("index", "concat", "sort", "replace", "addfield", "addexisting"))
     for tname in dict.fromkeys(chosen):
         cls, sortc, repc, rows, fresh = types[tname]
         pool = [cls.from_entry_tuples(rows)]
@@ -179,6 +187,11 @@ def check_vector(v):
                     vals = [fresh(op["k"], j + 1) for j in range(len(t))]
                     col = getattr(t, repc)
                     pool.append(replace(t, **{repc: _as_column(col, vals)}))
+                elif name == "addexisting":
+                    vals = [fresh(op["k"], j + 1) for j in range(len(t))]
+                    col = getattr(t, repc)
+                    ftype = {f.name: f.type for f in dataclasses.fields(t)}[repc]
+                    pool.append(t.add_fields({repc: _as_column(col, vals)}, field_type_map={repc: ftype}))
                 elif name == "addfield":
                     pool.append(t.add_fields({"extra": np.array([1000 * op["k"] + j + 1 for j in range(len(t))], dtype=int)}, field_type_map={"extra": int}))
                 elif name == "sort":
@@ -262,7 +275,7 @@ def check_vector(v):
             lens = {len(_plain(getattr(tab, nm).tolist() if hasattr(getattr(tab, nm), "tolist") else list(getattr(tab, nm)))) for nm in names}
             want = _expected_rows(tname, exp, names)
             if got != want or len(lens) != 1:
-                which = "result" if k == len(pool) - 1 and prog[-1]["op"] in ("index", "concat", "replace", "addfield", "sort") else "operand"
+                which = "result" if k == len(pool) - 1 and prog[-1]["op"] in ("index", "concat", "replace", "addfield", "addexisting", "sort") else "operand"
                 bad.append({"what": "table %d of the pool (%s) does not hold the model's rows after %s" % (k + 1, which, prog[-1]["op"]),
                             "tags": dict(tags, kind="pool", which=which), "vector": v, "case": case, "expected": str(want)[:300], "observed": str(got)[:300]})
                 break
